@@ -17,3 +17,35 @@ Theorem C03_reports_state : forall s key dt id i,
   In (OutAppReply false (a_state (get_obj s i))) (snd (app_info s key dt id)).
 Proof. exact app_info_reports_state. Qed.
 Print Assumptions C03_reports_state.
+
+From Verif Require Import ProcInv3.
+
+(* In every reachable state: run and application tables are consistent, a held run belongs to a CONNECTED
+   application object, and an application object has at most one held run. *)
+Theorem C03_lifecycle_invariant : forall ops, life_inv (fst (run ops)).
+Proof. exact life_inv_reachable. Qed.
+Print Assumptions C03_lifecycle_invariant.
+
+(* Agents are told "connected" only while the daemon holds a run the collector issued: the application of
+   every held run is in the connected state (and C03_valid_iff / C03_reports_state say what agents are told). *)
+Theorem C03_connected_sound : forall ops r a,
+  let s := fst (run ops) in
+  lookupN r (p_runs s) = Some a -> state_of s (app_of s a) = SConnected.
+Proof. exact held_run_connected. Qed.
+Print Assumptions C03_connected_sound.
+
+(* A 410 at any stage and an invalid-license answer at connect are terminal: once an application object is
+   in the disconnected / invalid-license state, NO later history (any further answers of overlapping connect
+   attempts, harvest replies, ticks, queries, time) changes its state ... *)
+Theorem C03_terminal_permanent : forall pre post i,
+  let s := fst (run pre) in
+  terminal (state_of s i) = true ->
+  state_of (fst (run_from s post)) i = state_of s i.
+Proof. exact terminal_permanent. Qed.
+Print Assumptions C03_terminal_permanent.
+
+(* ... and no connect is attempted for it again. *)
+Theorem C03_terminal_never_connects : forall s i,
+  terminal (state_of s i) = true -> consider_connect s i = (s, []).
+Proof. exact consider_connect_terminal_silent. Qed.
+Print Assumptions C03_terminal_never_connects.
